@@ -399,6 +399,8 @@ def tree_shard(args):
             # ... and run through a preprocessor first (these extensions are preprocessed by default when a preprocessor is configured)
             for ext in ("F", "FOR"):
                 variants.append((f"ext-{ext}-cpp", dict(_ext=ext, _cpp=True, comment_style=1, **(dict(breaks=(allbreaks[len(allbreaks) // 2],)) if allbreaks else {}))))
+                # (a sequence field in columns 73-80 is still ignored after preprocessing)
+                variants.append((f"ext-{ext}-cpp+seqfield", dict(_ext=ext, _cpp=True, seqfield=True, **(dict(breaks=(allbreaks[len(allbreaks) // 2],)) if allbreaks else {}))))
         for vname, kw in variants:
             kw = dict(kw)
             ext = kw.pop("_ext", "f")
